@@ -11,6 +11,7 @@ package main
 import (
 	"database/sql"
 	"encoding/binary"
+	"encoding/json"
 	"flag"
 	"fmt"
 	"io"
@@ -559,6 +560,7 @@ func runRange(args []string) error {
 	rounds := fs.Int("rounds", 4, "conc: rounds")
 	dir := fs.String("dir", "", "scratch directory for database files")
 	replay := fs.String("replay", "", "re-execute a recorded scenario")
+	in := fs.String("in", "", "letters: JSON file with the behaviours TLC generated")
 	if err := fs.Parse(args); err != nil {
 		return err
 	}
@@ -680,6 +682,45 @@ func runRange(args []string) error {
 			}()
 		}
 		wg.Wait()
+	case "letters":
+		// model -> code: behaviours generated by TLC (spec/RangeGen.tla), one scenario per list
+		raw, err := os.ReadFile(*in)
+		if err != nil {
+			return err
+		}
+		var scns [][]map[string]string
+		if err := json.Unmarshal(raw, &scns); err != nil {
+			return err
+		}
+		for k, sc := range scns {
+			if k%*shards != *shard {
+				continue
+			}
+			r := rand.New(rand.NewSource(*seed*31337 + int64(k)))
+			lease := 3
+			if k%2 == 1 {
+				lease = 3600
+			}
+			st := []string{"10.0.0.1", "255.255.255.253", "10.0.0.254"}[k%3]
+			s := newRangeScn(t, *dir, 400000+k, mkRangeGeom(st, *n), lease, r, *probe, &nsetup)
+			var letters []string
+			ticks := 0
+			for _, l := range sc {
+				switch l["op"] {
+				case "restart":
+					letters = append(letters, "restart")
+				case "tick":
+					if ticks < 1 && k%5 == 0 { // real time: 2.1 s each; keep them few
+						letters = append(letters, "tick")
+						ticks++
+					}
+				default:
+					id, _ := strconv.Atoi(strings.TrimPrefix(l["m"], "m"))
+					letters = append(letters, []string{"D", "R"}[r.Intn(2)]+strconv.Itoa(id))
+				}
+			}
+			s.run(letters)
+		}
 	case "conc":
 		runRangeConc(t, *dir, *seed, *rounds, &nsetup)
 	case "probe":
